@@ -2155,9 +2155,9 @@ def _r9(name):
 
 for _p, _names in {
     "C01": ["rule_py_extents_agree", "rule_py_time_counts_in_own_unit", "rule_py_struct_formats_little_endian", "rule_py_count_prefix_is_the_loop_length"],
-    "C03": ["rule_py_extents_agree", "rule_py_time_counts_in_own_unit", "rule_py_struct_formats_little_endian", "rule_py_flag_named_only_when_contained", "rule_py_count_prefix_is_the_loop_length"],
-    "C14": ["rule_py_struct_formats_little_endian", "rule_py_time_counts_in_own_unit", "rule_py_count_prefix_is_the_loop_length"],
-    "C02": ["rule_py_flag_named_only_when_contained"],
+    "C03": ["rule_py_extents_agree", "rule_py_time_counts_in_own_unit", "rule_py_struct_formats_little_endian", "rule_py_flag_named_only_when_contained", "rule_py_count_prefix_is_the_loop_length", "rule_py_arrays_written_flat"],
+    "C14": ["rule_py_struct_formats_little_endian", "rule_py_time_counts_in_own_unit", "rule_py_count_prefix_is_the_loop_length", "rule_py_arrays_written_flat"],
+    "C02": ["rule_py_flag_named_only_when_contained", "rule_py_arrays_written_flat"],
     "C16": ["rule_py_extents_agree"],
     "C17": ["rule_py_extents_agree"],
 }.items():
